@@ -5,8 +5,20 @@ Use of this source code is governed by MIT license that can be found in the LICE
 package parser
 
 import (
+	"sort"
 	"strings"
 )
+
+// SortedIdNames returns the keys of the identifier table in sorted order, so that
+// everything derived from the table does not depend on Go's map iteration order.
+func SortedIdNames(m map[string]*Idendity) []string {
+	names := make([]string, 0, len(m))
+	for name := range m {
+		names = append(names, name)
+	}
+	sort.Strings(names)
+	return names
+}
 
 func genTempName(in string) string {
 	return "$operator" + in
